@@ -2,6 +2,8 @@
 # run every registered quick (or $1=thorough) check sequentially, print one line each
 T=${1:-quick}
 cd "$(dirname "$0")/.."
+# the umbrella module imports every file: catches name collisions between lemma files of different properties (setup builds it)
+( cd lean && lake build IcyVerif >/dev/null 2>&1 ) || echo "BROKEN umbrella build: cd lean && lake build IcyVerif"
 for id in $(python3 -c "
 import json;print(' '.join(c['property_id'] for c in json.load(open('MANIFEST.json'))['checks']))"); do
   out=$(./check $id $T 2>&1); rc=$?
